@@ -27,6 +27,8 @@ def verify_sidecar(path, only=None, verbose=True):
         if verbose:
             print("-- %s: %d obligations generated in %.2fs (%d exits)" % (name, len(obs), time.time() - t, ex.n_exits))
         allobs += obs
+    from .check import lemma_obligations
+    allobs += lemma_obligations(reg, path)
     solve.discharge(allobs)
     return reg, allobs, errors, execs
 
